@@ -185,6 +185,48 @@ def run_one(ch, cfg):
             viol.append(("file/roundtrip", "save/load/save changed the authorization"))
     except Exception as e:
         viol.append(("file/roundtrip", "authorization written by the tools does not load: %s" % e))
+    # ---- one authorization object used for several operations (what a signing service built on the
+    # library does): a refused signature leaves no trace, an accepted one is appended, and what is
+    # saved afterwards is what the object was told
+    try:
+        sa = SignerAuthorization.from_jsonfile(AUTH)
+        model = list(A_load(w, AUTH)["signatures"])
+        ops = []
+        for j in range(ch.draw(4, "object-ops")):
+            if ch.draw(2, "object-op.malformed") == 1:
+                bad = ch.pick(["zz", "3006020101", "30060201010201", "", "00" * 70, "3006020101020102ff",
+                               None, 5], "object-op.bad")
+                ops.append("bad")
+                try:
+                    sa.add_signature(bad)
+                    viol.append(("object/malformed-signature-accepted", "add_signature(%r) did not raise" % (bad,)))
+                except Exception:
+                    pass
+            else:
+                good = auth_keys[ch.draw(nauth, "object-op.key")].sign_digest(digest).hex()
+                ops.append("good")
+                try:
+                    sa.add_signature(good)
+                    model.append(good)
+                except Exception as e:
+                    viol.append(("object/valid-signature-refused",
+                                 "after operations %s add_signature(valid) raised %s" % (ops[:-1], e)))
+                    break
+            if list(sa.signatures) != model:
+                viol.append(("object/state", "after operations %s the object holds %s, expected %s" % (
+                    ops, [x if not isinstance(x, str) else x[:12] for x in sa.signatures],
+                    [x[:12] for x in model])))
+                break
+        if ops and not any(v[0].startswith("object/") for v in viol):
+            sa.save_to_jsonfile("/simfs/auth3.json")
+            doc3 = A_load(w, "/simfs/auth3.json")
+            if doc3 is None or doc3.get("signatures") != model:
+                viol.append(("object/saved", "after operations %s the saved file holds %r" % (
+                    ops, doc3 and [x[:12] for x in doc3.get("signatures", [])])))
+            else:
+                SignerAuthorization.from_jsonfile("/simfs/auth3.json")
+    except Exception as e:
+        viol.append(("object/exception", "%s: %s" % (type(e).__name__, e)))
     # ---- authorize on the device
     n0 = len(dev.sigaut_log)
     st, out = w.run_tool(adm_ledger.main, ["adm_ledger.py", "authorize_signer", "-p", "abcd1234",
